@@ -2,7 +2,6 @@
 import itertools
 import math
 from fractions import Fraction
-from unittest import mock
 
 import common
 from common import q, lst
@@ -19,17 +18,6 @@ def _mk_points(tp, torch):
 # ------------------------------------------------------------------------------------------
 # implementation runs (canonical text identical to the driver's replies)
 
-class PermRecorder:
-    def __init__(self, torch):
-        self.torch, self.perms = torch, []
-        self.orig = torch.randperm
-
-    def __call__(self, n, *a, **k):
-        p = self.orig(n, *a, **k)
-        self.perms.append(p.tolist())
-        return p
-
-
 def run_points(case):
     tp = common.use_repo()
     import torch
@@ -38,13 +26,7 @@ def run_points(case):
     idx = torch.arange(n, dtype=torch.float32)
     xin = tp.spaces.Points(torch.stack([idx, idx + 0.5], dim=1), X)
     yout = tp.spaces.Points((idx * 2 + 1).reshape(-1, 1), U)
-    rec = PermRecorder(torch)
-    with mock.patch("torch.randperm", rec):
-        loader = tp.utils.PointsDataLoader((xin, yout), batch_size=bs, shuffle=bool(shuffle), drop_last=bool(drop))
-    perm = rec.perms[0] if rec.perms else list(range(n))
-    if shuffle and len(rec.perms) != 1:
-        return dict(error=f"expected exactly one permutation for inputs and targets, saw {len(rec.perms)}")
-    inv = {v: i for i, v in enumerate(perm)}
+    loader = tp.utils.PointsDataLoader((xin, yout), batch_size=bs, shuffle=bool(shuffle), drop_last=bool(drop))
     batches, problems, seen = [], [], []
     for b in loader:
         xb, yb = b
@@ -57,7 +39,7 @@ def run_points(case):
         if len(xs) > bs:
             problems.append(f"batch of {len(xs)} rows, requested {bs}")
         seen += [int(a) for a in xs]
-        batches.append([inv.get(int(a), -1) for a in xs])
+        batches.append([int(a) for a in xs])
     want = set(range(n)) if not drop else None
     if not drop and set(seen) != want:
         problems.append(f"rows never presented: {sorted(want - set(seen))}")
@@ -87,16 +69,8 @@ def run_deeponet(case):
         trunk = torch.stack([fi.reshape(nB, 1).repeat(1, nT), xi.reshape(1, nT).repeat(nB, 1)], dim=-1)
     else:
         trunk = torch.stack([xi, xi + 0.5], dim=-1)
-    rec = PermRecorder(torch)
-    with mock.patch("torch.randperm", rec):
-        loader = tp.utils.DeepONetDataLoader(branch, trunk, out, F, X, U, bB, bT,
-                                             shuffle_branch=bool(case["shB"]), shuffle_trunk=bool(case["shT"]))
-    perms = list(rec.perms)
-    # the code draws the trunk permutation first, then the branch permutation
-    permT = perms.pop(0) if case["shT"] else list(range(nT))
-    permB = perms.pop(0) if case["shB"] else list(range(nB))
-    invB = {v: i for i, v in enumerate(permB)}
-    invT = {v: i for i, v in enumerate(permT)}
+    loader = tp.utils.DeepONetDataLoader(branch, trunk, out, F, X, U, bB, bT,
+                                         shuffle_branch=bool(case["shB"]), shuffle_trunk=bool(case["shT"]))
     problems, batches, pairs = [], [], set()
     for k, (bb, tb, ob) in enumerate(loader):
         fs = [int(v) for v in bb.as_tensor[:, 0, 0].tolist()]
@@ -139,7 +113,7 @@ def run_deeponet(case):
         if len(fs) > (bB if bB > 0 else nB) or len(xs) > (bT if bT > 0 else nT):
             problems.append(f"batch {k}: {len(fs)}x{len(xs)} exceeds requested {bB}x{bT}")
         pairs |= {(f, x) for f in fs for x in xs}
-        batches.append((" ".join(str(invB.get(f, -1)) for f in fs), " ".join(str(invT.get(x, -1)) for x in xs)))
+        batches.append((" ".join(map(str, fs)), " ".join(map(str, xs))))
     missing = [(f, x) for f in range(nB) for x in range(nT) if (f, x) not in pairs]
     text = f"{len(loader)} | " + " | ".join(f"{a} : {b}" for a, b in batches)
     return dict(text=text, problems=problems, missing=missing, presented=len(pairs))
@@ -317,11 +291,57 @@ def gen_cases(ctx):
 
 
 def evaluate(case):
+    try:
+        return _evaluate(case)
+    except Exception as e:  # a legal data set / configuration must be served, not refused
+        import traceback
+        where = traceback.extract_tb(e.__traceback__)[-1]
+        res = dict(error=f"{type(e).__name__}: {str(e)[:160]} (raised at {where.filename.split('/')[-1]}:{where.lineno}) for a legal configuration")
+        if case["kind"] == "fold":
+            res["line"] = "foldinf " + lst([], lambda b: lst(b, q))
+        return res
+
+
+def _evaluate(case):
     if case["kind"] == "pts":
         return run_points(case)
     if case["kind"] == "deeponet":
         return run_deeponet(case)
     return run_fold_deeponet(case) if case.get("loader") == "deeponet" else run_fold(case)
+
+
+def _parse(text):
+    """'L | a b : x y | ...' -> (L, [([a,b],[x,y]), ...]); points batches have an empty second part"""
+    head, *rest = [t.strip() for t in text.split("|")]
+    out = []
+    for r in rest:
+        a, _, b = r.partition(":")
+        out.append(([int(v) for v in a.split()], [int(v) for v in b.split()]))
+    return int(head), out
+
+
+def same_up_to_relabelling(impl_text, model_text, shuf_a, shuf_b):
+    """The model enumerates POSITIONS of the (possibly shuffled) data set, the loader delivers ORIGINAL indices. With a shuffle
+    flag the statement leaves the permutation free, so the two traversals must agree up to one injective relabelling
+    position -> index per side (however the library draws its permutation); without the flag they must agree literally."""
+    try:
+        li, bi = _parse(impl_text)
+        lm, bm = _parse(model_text)
+    except ValueError:
+        return impl_text == model_text
+    if li != lm or len(bi) != len(bm):
+        return False
+    for side, shuf in ((0, shuf_a), (1, shuf_b)):
+        fwd, bwd = {}, {}
+        for x, y in zip(bi, bm):
+            if len(x[side]) != len(y[side]):
+                return False
+            for i, m in zip(x[side], y[side]):
+                if not shuf and i != m:
+                    return False
+                if fwd.setdefault(m, i) != i or bwd.setdefault(i, m) != m:
+                    return False
+    return True
 
 
 def judge(rep, case, res, model_reply):
@@ -332,7 +352,8 @@ def judge(rep, case, res, model_reply):
         return
     if kind in ("pts", "deeponet"):
         rep.count(f"{kind}:{case.get('layout','')}")
-        if res["text"] != model_reply:
+        shuf = (case.get("shuffle", 0), 0) if kind == "pts" else (case["shB"], case["shT"])
+        if not same_up_to_relabelling(res["text"], model_reply, *shuf):
             rep.disagree("loader index sets: drivers/C16.lean `" + model_line(case).split()[0] + "` vs iteration of the real loader",
                          case, res["text"], model_reply)
         for p in res["problems"]:
